@@ -30,6 +30,9 @@ type RecSc struct {
 	// AddDuring >= 0 (via "smf" only): before that chunk is sent, another (closed) track is
 	// added to the SMF that is being recorded into.
 	AddDuring int `json:"add_during"`
+	// Prior (via "track" only): the track already holds this many text events (a name, an
+	// instrument, an earlier take) when the recording starts.
+	Prior int `json:"prior,omitempty"`
 }
 
 type recWorld struct{}
@@ -90,6 +93,9 @@ func (recWorld) Gen(seed uint64, tier string) core.Scenario {
 	// the largest gap whose tick count still fits the format's maximum delta
 	maxGap := float64(s.maxGapMs())
 	budget := maxGap
+	if s.Via == "track" && r.Chance(1, 5) {
+		s.Prior = r.Range(1, 3)
+	}
 	s.AddDuring = -1
 	if s.Via == "smf" && r.Chance(1, 4) {
 		s.AddDuring = r.Intn(len(s.Chunks) + 1)
@@ -187,6 +193,13 @@ func (s *RecSc) Shrinks(try0 func(core.Scenario) bool) bool {
 			if try(&c) {
 				return true
 			}
+		}
+	}
+	if s.Prior > 0 {
+		c := *s
+		c.Prior = 0
+		if try(&c) {
+			return true
 		}
 	}
 	if s.AddDuring >= 0 {
@@ -301,6 +314,9 @@ func (s *RecSc) Run(env *core.Env, st *core.Stats) (vs []core.Violation) {
 		} else if s.Via == "smf" {
 			stop, recErr = file.RecordFrom(in, bpm)
 		} else {
+			for i := 0; i < s.Prior; i++ {
+				track.Add(uint32(i), smf.MetaText(fmt.Sprintf("already here %d", i)))
+			}
 			stop, recErr = track.RecordFrom(in, smf.MetricTicks(s.Res), bpm)
 		}
 		if recErr != nil {
@@ -369,7 +385,20 @@ func (s *RecSc) Run(env *core.Env, st *core.Stats) (vs []core.Violation) {
 		return []core.Violation{core.V("record-error", "err", "RecordFrom failed: %v; %s", recErr, desc())}
 	}
 
-	// 1. first event is the tempo meta
+	fullTrack := track
+	// 1. first event (after what the track held before) is the tempo meta
+	if s.Via == "track" && s.Prior > 0 {
+		st.Probe("recording-into-a-track-that-already-has-events")
+		if len(track) < s.Prior {
+			return []core.Violation{core.V("channel-messages", "prior-lost", "the %d events the track held before the recording are gone; %s", s.Prior, desc())}
+		}
+		var shift int64
+		for _, e := range track[:s.Prior] {
+			shift += int64(e.Delta)
+		}
+		_ = shift
+		track = track[s.Prior:]
+	}
 	if len(track) == 0 || len(track[0].Message) != 6 || track[0].Message[0] != 0xFF || track[0].Message[1] != 0x51 || track[0].Message[2] != 3 {
 		return []core.Violation{core.V("tempo-first", "missing", "recorded track does not start with a tempo event (first: %v); %s", firstEv(track), desc())}
 	}
@@ -426,7 +455,7 @@ func (s *RecSc) Run(env *core.Env, st *core.Stats) (vs []core.Violation) {
 		prevPos, prevT = got[i].pos, chanArr[i].T
 	}
 	// 4. once closed and written, the file is valid and reads back to the same events
-	if !track.IsClosed() {
+	if !fullTrack.IsClosed() {
 		return []core.Violation{core.V("file-valid", "not-closed", "recorded track is not closed after stop; %s", desc())}
 	}
 	d := &simio.Disk{Limit: -1}
@@ -449,10 +478,10 @@ func (s *RecSc) Run(env *core.Env, st *core.Stats) (vs []core.Violation) {
 	if len(back.Tracks) != 1 || len(parsed.Tracks) != 1 {
 		return []core.Violation{core.V("file-valid", "tracks", "recording has %d tracks after read-back; %s", len(back.Tracks), desc())}
 	}
-	if len(back.Tracks[0]) != len(track) {
-		return []core.Violation{core.V("file-valid", "read-back:events", "read-back has %d events, recorded track %d; %s", len(back.Tracks[0]), len(track), desc())}
+	if len(back.Tracks[0]) != len(fullTrack) {
+		return []core.Violation{core.V("file-valid", "read-back:events", "read-back has %d events, recorded track %d; %s", len(back.Tracks[0]), len(fullTrack), desc())}
 	}
-	for i, e := range track {
+	for i, e := range fullTrack {
 		b := back.Tracks[0][i]
 		if b.Delta != e.Delta || !bytes.Equal(b.LibBytes(), e.Message) {
 			return []core.Violation{core.V("file-valid", "read-back:events", "read-back event %d is %v, recorded (d=%d % X); %s", i, b, e.Delta, []byte(e.Message), desc())}
